@@ -434,8 +434,24 @@ pub fn random_handshake(rng: &mut Rng) -> (Vec<u8>, String) {
         _ => (rng.next() as u32, "random"),
     };
     let caps = caps & !wire::CLIENT_SSL;
-    let tl = rng.below(40) as usize;
-    let tail = rng.bytes(tl);
+    // behind the user name: arbitrary bytes, or what a real client sends there for the capabilities
+    // it announces (authentication response in one of three layouts, default schema, plugin name,
+    // connection attributes)
+    let tail = if layout41 && rng.bool() {
+        let al = *rng.pick(&[0usize, 1, 8, 20, 20, 32, 250, 251, 300]);
+        let auth = rng.bytes(al);
+        let db: &[u8] = *rng.pick(&[&b""[..], b"shop", b"d", b"my db", b"\xc3\xa9cole", b"information_schema"]);
+        let plugin: &[u8] = *rng.pick(&[&b"mysql_native_password"[..], b"caching_sha2_password", b"", b"mysql_clear_password"]);
+        let attrs: Vec<(&[u8], &[u8])> = match rng.below(3) {
+            0 => vec![],
+            1 => vec![(&b"_client_name"[..], &b"libmysql"[..]), (&b"_pid"[..], &b"4242"[..])],
+            _ => vec![(&b"program_name"[..], &b"mysql"[..]), (&b"_os"[..], &b"Linux"[..]), (&b"k"[..], &b""[..])],
+        };
+        wire::handshake41_tail(caps, &auth, db, plugin, &attrs)
+    } else {
+        let tl = rng.below(40) as usize;
+        rng.bytes(tl)
+    };
     let ul = rng.range(0, 12) as usize;
     let user: Vec<u8> = rng.ascii(ul).into_iter().filter(|b| *b != 0).collect();
     let hs = if layout41 { wire::handshake41(caps, rng.next() as u32, rng.below(256) as u8, &user, &tail) } else { wire::handshake320((caps as u16) & !(wire::CLIENT_PROTOCOL_41 as u16), rng.next() as u32 & 0xFF_FFFF, &user, &tail) };
